@@ -418,9 +418,9 @@ func (g *genState) run(h hist) {
 		g.c.Fail(sig, what, []string{op}, detail)
 		g.failures[cfg]++
 		restartChild(cfg) // a damaged listener must not spoil the following histories
-		if g.failures[cfg] >= 3 {
+		if g.failures[cfg] >= 2 {
 			g.skipped[cfg] = true
-			g.c.NotExecuted(fmt.Sprintf("%s/%s: rest of the stream skipped after 3 failing histories", h.kind, h.reg))
+			g.c.NotExecuted(fmt.Sprintf("%s/%s: rest of the stream skipped after 2 failing histories", h.kind, h.reg))
 		}
 	}
 }
@@ -434,9 +434,6 @@ func (g *genState) judge(h hist, ans string, obs *histObs) (sig, what string) {
 		kinds[i] = o.kind
 	}
 	ks := string(kinds)
-	if i := strings.IndexByte(ks, 'u'); i >= 0 {
-		return "C09:tx:valid-request-unanswered", fmt.Sprintf("event %d (%c) of the history got no reply within %v (kinds %s): the listener stopped answering", i, obs.evs[i].letter, replyTimeout, ks)
-	}
 	if strings.IndexByte(ks, '?') >= 0 {
 		return "C09:tx:unexpected-datagram", "a datagram that is no reply to the event came back (kinds " + ks + ")"
 	}
@@ -445,29 +442,35 @@ func (g *genState) judge(h hist, ans string, obs *histObs) (sig, what string) {
 		s := "C06:tx:" + strings.SplitN(strings.SplitN(w, ": ", 2)[1], ":", 2)[0]
 		return s, w
 	}
+	// the answered part of the history first (a listener that hangs is reported below)
+	upto := len(ks)
+	if i := strings.IndexByte(ks, 'u'); i >= 0 {
+		upto = i
+	}
 	if h.reg != "late" {
 		want := expectKinds(h.reg, h.idents, obs.evs)
-		if ks != want {
-			for i := range ks {
-				if ks[i] != want[i] {
-					if h.reg == "none" && ks[i] == 'i' {
-						return "C06:tx:lost-stamp-exchange-served", fmt.Sprintf("no transmit timestamp can be read in this regime, yet event %d was answered in interleaved mode from the record of event %d (kinds %s, expected %s)", i, obs.evs[i].ref, ks, want)
-					}
-					if ks[i] == 'b' && want[i] == 'i' {
-						return "C06:tx:interleaved-expected", fmt.Sprintf("event %d quotes event %d of the same client, whose transmit timestamp was delivered: expected an interleaved reply (kinds %s, expected %s)", i, obs.evs[i].ref, ks, want)
-					}
-					return "C06:tx:kinds", fmt.Sprintf("event %d: kinds %s, expected %s", i, ks, want)
+		for i := 0; i < upto; i++ {
+			if ks[i] != want[i] {
+				if h.reg == "none" && ks[i] == 'i' {
+					return "C06:tx:lost-stamp-exchange-served", fmt.Sprintf("no transmit timestamp can be read in this regime, yet event %d was answered in interleaved mode from the record of event %d (kinds %s, expected %s)", i, obs.evs[i].ref, ks, want)
 				}
+				if ks[i] == 'b' && want[i] == 'i' {
+					return "C06:tx:interleaved-expected", fmt.Sprintf("event %d quotes event %d of the same client, whose transmit timestamp was delivered: expected an interleaved reply (kinds %s, expected %s)", i, obs.evs[i].ref, ks, want)
+				}
+				return "C06:tx:kinds", fmt.Sprintf("event %d: kinds %s, expected %s", i, ks, want)
 			}
 		}
 	} else {
 		// whatever the kernel does: a request with rx = tx or quoting another client's exchange is
 		// answered in basic mode
-		for i, e := range obs.evs {
+		for i, e := range obs.evs[:upto] {
 			if ks[i] == 'i' && (e.letter == 'q' || e.ref < 0 || h.idents[obs.evs[e.ref].src] != h.idents[e.src]) {
 				return "C06:tx:kinds", fmt.Sprintf("event %d must be answered in basic mode (kinds %s)", i, ks)
 			}
 		}
+	}
+	if upto < len(ks) {
+		return "C09:tx:valid-request-unanswered", fmt.Sprintf("event %d (%c) of the history got no reply within %v (kinds %s): the listener stopped answering", upto, obs.evs[upto].letter, replyTimeout, ks)
 	}
 	return "", ""
 }
